@@ -49,6 +49,15 @@ type TypeCall struct {
 	Field    string
 }
 
+// TypeOfCall is one IsTypeOf invocation.
+type TypeOfCall struct {
+	Object  string
+	ValueID string
+	Path    string
+	CtxOK   bool
+	Field   string
+}
+
 type World struct {
 	G        *gen.Schema
 	X        Chooser
@@ -59,6 +68,7 @@ type World struct {
 	Calls   map[string]*Call
 	Order   []*Call
 	Types   []*TypeCall
+	TypeOfs []*TypeOfCall
 	Events  []string
 
 	// expectations about per-request values (checked in every callback)
@@ -89,6 +99,7 @@ func (w *World) ResetLog() {
 	w.Calls = map[string]*Call{}
 	w.Order = nil
 	w.Types = nil
+	w.TypeOfs = nil
 	w.Events = nil
 }
 
@@ -256,7 +267,13 @@ func (w *World) ResolveType(abstract string, p graphql.ResolveTypeParams) string
 }
 
 func (w *World) IsTypeOf(object string, p graphql.IsTypeOfParams) bool {
+	tc := &TypeOfCall{Object: object, CtxOK: p.Context == w.Ctx, Field: p.Info.FieldName}
+	if p.Info.Path != nil {
+		tc.Path = model.PathString(p.Info.Path.AsArray())
+	}
+	w.TypeOfs = append(w.TypeOfs, tc)
 	if o, ok := p.Value.(*model.Obj); ok && o != nil {
+		tc.ValueID = o.ID
 		return o.Type == object
 	}
 	return false
